@@ -96,8 +96,16 @@ UpperOf == [c \in LowerLetters |->
       [] c = "z" -> "Z"]
 LowerC(c) == IF c \in DOMAIN LowerOf THEN LowerOf[c] ELSE c
 UpperC(c) == IF c \in DOMAIN UpperOf THEN UpperOf[c] ELSE c
-Lower(s) == [i \in DOMAIN s |-> LowerC(s[i])]
-Upper(s) == [i \in DOMAIN s |-> UpperC(s[i])]
+\* Characters outside ASCII are written by NAME in the specification (TLA+ source is ASCII; the
+\* harness codec maps the names to the characters): the three whose case mapping changes the
+\* LENGTH of a string - str.upper() / str.lower() work on strings, not on characters.
+\*   "&szlig;"  U+00DF  upper -> "SS"          "&napos;" U+0149 upper -> U+02BC "N"
+\*   "&Idot;"   U+0130  lower -> "i" U+0307    ("&cdot;" = U+0307, "&apos2;" = U+02BC)
+UpperS(c) == CASE c = "&szlig;" -> <<"S", "S">> [] c = "&napos;" -> <<"&apos2;", "N">> [] OTHER -> <<UpperC(c)>>
+LowerS(c) == CASE c = "&Idot;" -> <<"i", "&cdot;">> [] OTHER -> <<LowerC(c)>>
+RECURSIVE Lower(_), Upper(_)
+Lower(s) == IF s = <<>> THEN <<>> ELSE LowerS(Head(s)) \o Lower(Tail(s))
+Upper(s) == IF s = <<>> THEN <<>> ELSE UpperS(Head(s)) \o Upper(Tail(s))
 
 DigitVal == [c \in Digits |->
     CASE c = "0" -> 0 [] c = "1" -> 1 [] c = "2" -> 2 [] c = "3" -> 3 [] c = "4" -> 4
